@@ -18,7 +18,8 @@ NEW_VALUES = [None, True, 7, 2.25, "zz", ""]
 RULE = ("E1: every document with <= 3 nodes (4 by stride; C01 alphabet, so "
         "repeated equal scalars, values spelled like keys and sets occur) x "
         "every scalar leaf addressed by its coordinate path x 6 new values "
-        "(null, true, 7, 2.25, 'zz', ''), plus C01-vocabulary paths matching "
+        "(null, true, 7, 2.25, 'zz', ''), the same with the keys moved onto "
+        "-1 / 0 / 12 / '-1' / 'b c', plus C01-vocabulary paths matching "
         "only scalars; an enumerated family of anchored documents (scalar "
         "anchors aliased under keys, inside sequences and next to sets) with "
         "a set through the anchor and through each alias. Oracle: a "
@@ -483,6 +484,11 @@ def plan(tier, seed):
         shards.append({"kind": "coord", "nmin": 4, "nmax": 4, "part": i,
                        "parts": nsh, "offset": seed,
                        "stride": 6 if tier == "quick" else 1})
+    for kv in range(len(gdocs.KEY_VARIANTS)):
+        for i in range(4):
+            shards.append({"kind": "coord", "nmax": 3 if tier == "quick"
+                           else 4, "part": i, "parts": 4, "stride": 1,
+                           "offset": seed, "keyvar": kv})
     for i in range(nsh):
         shards.append({"kind": "vocab", "nmax": 3, "part": i, "parts": nsh,
                        "offset": seed,
@@ -504,6 +510,11 @@ def run_shard(shard):
         specs = []
         for n in range(shard.get("nmin", 1), shard["nmax"] + 1):
             specs.extend(gdocs.specs_exact(n))
+        if shard.get("keyvar") is not None:
+            name, pairs, _ = gdocs.KEY_VARIANTS[shard["keyvar"]]
+            specs = [gdocs.remap_keys(s, pairs) for s in specs
+                     if any(gdocs.has_key(s, old) for old, _ in pairs)]
+            res.label("keyvar:" + name)
         for di in range(shard["part"], len(specs), shard["parts"]):
             if dl.expired():
                 res.truncated = True
